@@ -993,3 +993,78 @@ def rule_instrspec(ctx, prop: str) -> RuleResult:
         raise AnalysisError(f"INSTRSPEC: {len(instrs)} instructions, only {n_agree} analysed-and-agreeing — checker blind")
     res.floor = 60
     return res
+
+
+def rule_regwidth(ctx, prop: str) -> RuleResult:
+    """Register memories expand a window `r[k, lo:hi]` to `r[k]` — the lane offset is dropped
+    (`idxs = indices[:-1]`) — and declare `T r[dims[:-1]]`.  That is the meaning of the Exo
+    body only if the last dimension of every such buffer is exactly ONE register: `alloc`
+    must reject anything else before it drops the dimension, and the width helper
+    `_is_const_size(sz, c)` (one private copy per platform file) must test `int(sz) == c`.
+    With `% c == 0`, `r: f32[16] @ AVX2` is one `__m256` and r[0:8], r[8:16] are the same
+    register: the instruction's C fragment overwrites lanes its body leaves alone."""
+    from ..index import parent
+
+    ix = ctx.ix
+    res = RuleResult("REGWIDTH")
+    helpers = []
+    for m in ix.modules.values():
+        if not m.rel.startswith("src/exo/"):
+            continue
+        f = m.funcs.get("_is_const_size")
+        if f is not None and isinstance(f.node, ast.FunctionDef):
+            helpers.append((m, f))
+    if len(helpers) < 3:
+        raise AnalysisError(f"anchor vanished: expected the per-platform copies of _is_const_size, found {len(helpers)}")
+    for m, f in helpers:
+        res.instances += 1
+        res.nontrivial += 1
+        res.analysed.append(f"{m.rel}:_is_const_size")
+        ps = f.params()
+        rets = [n for n in f.body_nodes() if isinstance(n, ast.Return)]
+        ok = False
+        if len(ps) == 2 and len(rets) == 1 and rets[0].value is not None:
+            v = rets[0].value
+            conj = v.values if isinstance(v, ast.BoolOp) and isinstance(v.op, ast.And) else [v]
+            for c in conj:
+                if isinstance(c, ast.Compare) and len(c.ops) == 1 and isinstance(c.ops[0], ast.Eq):
+                    sides = {ast.unparse(c.left), ast.unparse(c.comparators[0])}
+                    if sides == {f"int({ps[0]})", ps[1]}:
+                        ok = True
+        res.ob(ok)
+        res.sample(f"{m.rel}:_is_const_size tests int({ps[0] if ps else '?'}) == {ps[1] if len(ps) > 1 else '?'}: {ok}")
+        if not ok:
+            res.add(Finding("REGWIDTH", m.rel, f.lineno, "_is_const_size", "exact-width",
+                            f"`{ast.unparse(rets[0])[:70] if rets else '?'}`: the register-width guard must accept exactly `int(sz) == c`; a weaker test (multiple of the width, at least the width) lets a buffer of "
+                            f"several registers be declared as one register while the window code drops the lane offset — r[0:8] and r[8:16] become the same register"))
+    # every alloc that drops the last dimension is dominated by a raising width guard on shape[-1]
+    n_alloc = 0
+    for m in ix.modules.values():
+        if not m.rel.startswith("src/exo/"):
+            continue
+        for c in m.classes.values():
+            f = c.methods.get("alloc")
+            if f is None:
+                continue
+            drops = [n for n in f.body_nodes() if isinstance(n, ast.Assign) and ast.unparse(n.value).replace(" ", "") == "shape[:-1]"]
+            if not drops:
+                continue
+            n_alloc += 1
+            res.instances += 1
+            res.nontrivial += 1
+            res.analysed.append(f"{m.rel}:{c.name}.alloc")
+            first_drop = min(d.lineno for d in drops)
+            ok = False
+            for n in f.body_nodes():
+                if isinstance(n, ast.If) and n.lineno < first_drop and "_is_const_size(shape[-1]" in ast.unparse(n.test) and isinstance(n.test, ast.UnaryOp) and isinstance(n.test.op, ast.Not):
+                    if any(isinstance(k, ast.Raise) for s in n.body for k in ast.walk(s)):
+                        ok = True
+            res.ob(ok)
+            res.sample(f"{m.rel}:{c.name}.alloc rejects a last dimension that is not one register before dropping it: {ok}")
+            if not ok:
+                res.add(Finding("REGWIDTH", m.rel, f.lineno, f"{c.name}.alloc", "guard-before-drop",
+                                f"{c.name}.alloc drops the last dimension from the C declaration (`shape = shape[:-1]`) without first rejecting a last dimension that is not exactly one register wide"))
+    if n_alloc < 4:
+        raise AnalysisError(f"REGWIDTH: expected >= 4 register memories dropping their last dimension, found {n_alloc}")
+    res.floor = 7
+    return res
